@@ -577,7 +577,7 @@ class FuncEval:
             elif isinstance(st.target, ast.Name) and isinstance(st.op, (ast.BitOr, ast.BitAnd, ast.BitXor, ast.Add, ast.Sub)):
                 # x |= y / x += y mutate the object bound to x in place when it is a set / list;
                 # numbers and strings are rebound instead: only flag when x is known to be a container
-                if self.container_typed(st.target, st):
+                if self.container_typed(st.target, st) or self.container_expr(st.value, st):
                     cur = self.name_val(st.target, st)
                     self.writes_val(st, "mutator", cur, A.text(st.target))
             self.scan_expr(st.value)
@@ -590,6 +590,20 @@ class FuncEval:
         for sub in ast.iter_child_nodes(st):
             if isinstance(sub, ast.expr):
                 self.scan_expr(sub)
+
+    def container_expr(self, v: ast.AST, at: ast.AST) -> bool:
+        """The right-hand side of `x += v` / `x |= v` is syntactically a list / set:
+        then x is one too and the statement mutates it in place."""
+        if isinstance(v, (ast.Set, ast.List, ast.SetComp, ast.ListComp)):
+            return True
+        if isinstance(v, ast.Call) and isinstance(v.func, ast.Name) and v.func.id in ("set", "list", "sorted"):
+            return True
+        if isinstance(v, ast.Call) and isinstance(v.func, ast.Attribute) and v.func.attr in ("get", "setdefault") and len(v.args) == 2 \
+                and isinstance(v.args[1], (ast.Set, ast.List)):
+            return True
+        if isinstance(v, ast.Name):
+            return self.container_typed(v, at)
+        return False
 
     def container_typed(self, n: ast.Name, at: ast.AST, depth: int = 0) -> bool:
         """Some reaching definition of n is syntactically a set / list / dict (or an
